@@ -171,8 +171,9 @@ def e2e_job(job):
         if r["error"] is not None or r["rc"] != 0:
             res["viol"] = ("run-failed", f"rc={r['rc']} error={r['error']}")
             return res
+        inputs = {os.path.normpath(os.path.join(d, n)) for n in files}
         outs = [p for p in glob.glob(os.path.join(d, "**", "*.json"), recursive=True)
-                if not os.path.basename(p).startswith("trace_rank_") and "out.json_" not in os.path.basename(p)]
+                if os.path.normpath(p) not in inputs and "out.json_" not in os.path.basename(p)]
         if not outs:
             res["viol"] = ("no-output", f"no trace written; directory holds {r.get('listing')}")
             return res
@@ -259,6 +260,8 @@ def run(ctx: Ctx):
             spec["overlap_depth"] = 5          # exactly the documented lane budget
         if s == 1:
             spec["R"], spec["groups"], spec["stale"] = 2, max(1, spec["groups"]), True   # stale group dropped in-stream
+        if s == 2:
+            spec["dma_only"] = True            # a job with device events but without any compute kernel
         singles = [[]] + DOMAIN_OPTS
         pairs = []
         for _ in range(ctx.n(6, 20)):
